@@ -21,6 +21,7 @@ import builtins
 import keyword
 
 from sa import core
+from sa import pat
 from sa import facts
 from sa import setalg
 from sa import tpl
@@ -166,18 +167,14 @@ def check(model, rep, tier):
       return 'RESERVED'
     return None
 
-  ev = setalg.Ev(model, ns, atom_of2, elem_names={'new_name'})
+  after = ns.node.body[idx + 1:]
+  retn = [core.norm(x.value) for x in after if isinstance(x, ast.Return)]
+  cand = retn[0] if len(retn) == 1 else 'new_name'   # the candidate variable
   env = {}
-  # elements of the reserved set are QNs or strings; their name parts are added
-  orig_update = None
-  ev2 = _NamerEv(model, ns, atom_of2, elem_names={'new_name'})
+  ev2 = _NamerEv(model, ns, atom_of2, elem_names={cand})
   rets = []
   ev2.block(ns.node.body[:idx], env, TRUE, rets, 0)
   test = ev2.cond(lp.test, env)
-  assume = TRUE
-  for a in test.atoms:
-    if a.startswith('OPAQUE[isinstance('):
-      pass
   res_ok = atom('RESERVED') & _any_isinstance(test)
   checks = {
       'namespace': implies(atom('NAMESPACE'), test),
@@ -192,13 +189,11 @@ def check(model, rep, tier):
                'counterexample': cx}, line=lp.lineno,
               witness='globals `ag__f` and `ag__f_1` (root and its next variant '
               'both taken)')
-  body_ok = any(isinstance(s, ast.Assign) and core.norm(s.targets[0]) == 'new_name'
+  body_ok = any(isinstance(s, ast.Assign) and core.norm(s.targets[0]) == cand
                 for s in lp.body)
-  after = ns.node.body[idx + 1:]
   rec = any(isinstance(s, ast.Expr) and core.norm(s.value) ==
-            'self.generated_names.add(new_name)' for s in after)
-  ret = any(isinstance(s, ast.Return) and core.norm(s.value) == 'new_name'
-            for s in after)
+            'self.generated_names.add(%s)' % cand for s in after)
+  ret = len(retn) == 1
   rep.check(body_ok and rec and ret, 'HYG-NAMER', '%s:records-result' % ns.site,
             'the accepted name must be recorded in generated_names and returned',
             {'recorded': rec, 'returned': ret}, line=ns.node.lineno,
